@@ -99,7 +99,7 @@ theorem stepDen_slice_is_python_slice (root : Node) (strict : Bool) (a b : Optio
 
 /-! non-vacuity: `[1::2]` and `[::-1]` on a five-member list; `[::0]` -/
 private def five : Node :=
-  .mk .list [] [] ((List.range 5).map (fun i => .mk .scalar [] (toString i).toList []))
+  .mk .list (some []) [] ((List.range 5).map (fun i => .mk .scalar (some []) (toString i).toList []))
 
 example : ∃ ps, runCtx five true [.slice (some 1) none (some 2)] [] = .ok (.spawn [] ps) ∧ ps = [[1], [3]] := by
   rcases C14_slice_is_python_slice five true (some 1) none (some 2) [] [] with h | ⟨_, ps, h1, h2, _⟩
